@@ -166,6 +166,14 @@ class Formatter:
         """Boolean literal representation in target language."""
         raise NotImplementedError
 
+    @final
+    def escape_str_value(self, value: str) -> str:
+        """Escapes characters that can't appear verbatim between double quotes
+        in the string literals of all supported languages (C, Go and Python).
+        """
+        escaping = {"\\": "\\\\", '"': '\\"', "\n": "\\n", "\t": "\\t", "\r": "\\r"}
+        return "".join(escaping.get(c, c) for c in value)
+
     @abstractmethod
     def format_str_value(self, value: str) -> str:
         """String literal representation in target language."""
